@@ -287,6 +287,11 @@ def fixed_corpus():
                     L('regex', '(?s-u:.)', prio=1)], utf8=False, origin='fixed:holes'))
     # multi-byte characters of every length, negated class, dot
     out.append(Def([L('regex', '[^a]'), L('token', 'aé'), L('regex', 'a中+'), L('regex', 'a😀?b')], origin='fixed:multibyte'))
+    # repetitions over classes that have characters under every UTF-8 lead byte but leave out a few non-ASCII characters (of
+    # every encoded length): a loop over such a class may not be widened to "any non-ASCII byte"
+    out.append(Def([L('regex', '[^"»]+'), L('token', '»'), L('token', '"')], origin='fixed:neg-nonascii'))
+    out.append(Def([L('regex', '[^é中😀 ]+'), L('token', 'é'), L('token', '中'), L('token', '😀'), L('skip', ' ')], origin='fixed:neg-nonascii2'))
+    out.append(Def([L('regex', '\\S+'), L('skip', '[ \\t]+')], origin='fixed:nonspace'))
     # look-around: end anchor, word boundary
     out.append(Def([L('regex', 'c$'), L('regex', 'c[a-b]+'), L('token', 'd')], origin='fixed:eoi'))
     out.append(Def([L('regex', 'c$'), L('token', 'd'), L('regex', 'ab$')], origin='fixed:eoi2'))
@@ -366,6 +371,9 @@ def fixed_corpus():
         out.append(Def([L(l.kind, l.pat) for l in perm] + [L('skip', ' ')], origin='fixed:prio-perm%d' % k))
     out.append(Def([L('regex', 'ab[a-z]*', prio=3), L('regex', '[a-z]+', prio=1), L('regex', 'abc+', prio=5), L('regex', 'a[a-z]*', prio=2),
                     L('token', 'abc', prio=4)], origin='fixed:prio-zigzag'))
+    # many leaves (more than 64), all overlapping with one identifier pattern: per-state match lists and leaf tables beyond the
+    # sizes small fixed buffers or bit sets would hold
+    out.append(Def([L('token', 'kw%02d' % j) for j in range(66)] + [L('regex', '[a-z]+[0-9]*'), L('skip', ' ')], origin='fixed:many-leaves'))
     # byte mode with arbitrary bytes
     out.append(Def([L('token', bytes([0xff, 0x00, 0x61]), is_bytes=True), L('regex', '(?-u)[\\x80-\\xbf]+'),
                     L('regex', 'é+'), L('regex', '[a-z]+')], utf8=False, origin='fixed:bytes'))
